@@ -147,12 +147,24 @@ def render_structs(k, it: Item, meta, cfg, strum_path="strum"):
     if "EnumIs" in derives:
         names = meta["is_names"]     # [(method name, ...)] expected to exist: supplied by the model through classify
         body = ", ".join('format!("%s={}", if v.%s() { 1 } else { 0 })' % (n, n) for n in names)
+        # methods that must NOT exist (disabled variants): an inherent method would take precedence over this fallback trait
+        absent = list(meta.get("absent_is", []))
+        if absent:
+            src.append("thread_local! { static FALLBACK_IS: std::cell::Cell<u32> = std::cell::Cell::new(0); }")
+            src.append("pub trait FallbackIs { %s }" % " ".join(
+                "fn %s(&self) -> bool { FALLBACK_IS.with(|c| c.set(c.get() + 1)); false }" % n for n in absent))
+            src.append("impl%s FallbackIs for %s {}" % (("<%s>" % ", ".join(["'l%d" % q for q in range(it.lifetimes)])) if it.lifetimes else "",
+                                                      RR.inst(it) if not it.lifetimes else it.ident + "<%s>" % ", ".join(["'l%d" % q for q in range(it.lifetimes)] + ["u8"] * it.tparams)))
+        absent_body = " ".join("let _ = v.%s();" % n for n in absent)
         arms["is"] = '''
             let j: usize = args[0].parse().unwrap();
             let v = val(j);
             let parts: Vec<String> = vec![%s];
-            format!("[{}]", parts.join(";"))
-        ''' % body
+            %s
+            format!("[{}]%s", parts.join(";")%s)
+        ''' % (body,
+               ("FALLBACK_IS.with(|c| c.set(0)); " + absent_body + " let used = FALLBACK_IS.with(|c| c.get());") if absent else "",
+               "|absent={}/%d" % len(absent) if absent else "", ", used" if absent else "")
     if "EnumTryAs" in derives:
         # [(base name, variant index)] for enabled tuple variants, supplied by the model
         parts = []
